@@ -40,7 +40,7 @@ DTOK = re.compile(r"^([LE])(\d+)(s?)$")
 def parse_log(log, simp):
     """returns (solves, line_event) or None.  solves: list of strings 'K:SPF...'; line_event[d] = index of the first event
     of the FIRST inner solve that reads an interrupt flag raised while display line d (0-based) is printed."""
-    toks = [t for t in log.split(",") if t]
+    toks = [("e" if (t[0] == "e" and not DTOK.match(t)) else t) for t in log.split(",") if t]
     segs, cur = [], []
     k = 0
     while k < len(toks):
@@ -358,6 +358,8 @@ def main():
         txt += p.text(str(k)) + "\n"
         for c, cfg in enumerate(cfgs[k]):
             txt += "DO c%d.u new %s %s ; opt\n" % (c, TRACE, lpgen.cfg_text(cfg))
+            # with an objective limit set optimize() never presolves: the reference for that family is the solve without simplifier
+            txt += "DO c%d.v new %s %s simplifier=0 ; opt\n" % (c, TRACE, lpgen.cfg_text({a: b for a, b in cfg.items() if a != "simplifier"}))
     rc, out, err = lpgen.run_harness(exe, txt, "C16-unl")
     U = parse_obs(out)
     if rc != 0:
@@ -410,7 +412,10 @@ def main():
                 add("t%d" % (ti + 1), "time", tl, "new %s %s timer=2 timelimit=%g ; opt ; set timelimit=1e100 ; opt" % (TRACE, ct, tl))
             # objective limits on both sides of the certified optimum (the active parameter is OBJLIMIT_UPPER when minimising,
             # OBJLIMIT_LOWER when maximising; the other one must have no effect)
-            if cl is not None:
+            uv = (U.get(str(k), {}).get("c%d.v" % c) or [None])[0]
+            if uv is None or uv["status"] not in VERDICTS:
+                ck.count("unlimited-without-simplifier-not-solved:%s" % (uv["status"] if uv else "missing"))
+            elif cl is not None:
                 vstar = cl[1] if cl[0] == "optimal" else Fraction(r.randint(-20, 20))
                 d = max(Fraction(1), abs(vstar))
                 act, oth = ("objlimit_lower", "objlimit_upper") if p.maxi else ("objlimit_upper", "objlimit_lower")
@@ -463,7 +468,7 @@ def main():
             continue
         cfg = cfgs[k][c]
         obs = O.get(str(k), {}).get("c%d.%s" % (c, rid), [])
-        unl = U[str(k)]["c%d.u" % c][0]
+        unl = U[str(k)]["c%d.%s" % (c, "v" if fam == "obj" else "u")][0]
         if len(obs) < 2:
             if rc == 0:
                 J.viol("missing-observation:%s" % fam, "no observation for %s" % do, p, cfg, fam, do, obs, no_input=True)
